@@ -169,4 +169,44 @@ theorem arrLen_le (items : List Nat) (n B : Nat) (hn : items.length ≤ n) (hB :
   rw [Nat.mul_succ]
   omega
 
+
+/-! ### the validation loops with a `seen` map -/
+
+/-- `for _, x := range xs { if rej(seen[key x]) { return error }; seen[key x] = true }`: true when the loop completes -/
+def scanSeen {α} [DecidableEq α] (rej : Bool → Bool) : List α → List α → Bool
+  | _, [] => true
+  | seen, x :: xs => if rej (seen.contains x) then false else scanSeen rej (x :: seen) xs
+
+theorem scanSeen_eq {α} [DecidableEq α] (rej : Bool → Bool) (hr : ∀ b, rej b = b) :
+    ∀ (l seen : List α), scanSeen rej seen l = decide (l.Nodup ∧ ∀ x ∈ l, x ∉ seen)
+  | [], seen => by simp [scanSeen]
+  | x :: xs, seen => by
+    have ih := scanSeen_eq rej hr xs (x :: seen)
+    unfold scanSeen
+    rw [hr]
+    by_cases hx : x ∈ seen
+    · have : seen.contains x = true := List.contains_iff_mem.mpr hx
+      simp [this, hx]
+    · have : seen.contains x = false := by
+        cases h : seen.contains x
+        · rfl
+        · exact absurd (List.contains_iff_mem.mp h) hx
+      rw [this, ih]
+      simp only [Bool.false_eq_true, if_false, List.nodup_cons, List.mem_cons, not_or, decide_eq_decide]
+      constructor
+      · rintro ⟨hn, hall⟩
+        exact ⟨⟨fun hm => (hall x hm).1 rfl, hn⟩, fun y hy => by
+          rcases hy with rfl | hy
+          · exact hx
+          · exact (hall y hy).2⟩
+      · rintro ⟨⟨hxn, hn⟩, hall⟩
+        exact ⟨hn, fun y hy => ⟨fun e => hxn (e ▸ hy), hall y (Or.inr hy)⟩⟩
+
+theorem scanSeen_nodup {α} [DecidableEq α] (rej : Bool → Bool) (hr : ∀ b, rej b = b) (l : List α) :
+    scanSeen rej [] l = decide l.Nodup := by
+  rw [scanSeen_eq rej hr]; simp
+
+theorem not_gt_eq_le (n l : Nat) : (!decide (n > l)) = decide (n ≤ l) := by
+  by_cases h : n ≤ l <;> simp [h] <;> omega
+
 end AutoVerif.C03
